@@ -150,6 +150,16 @@ def run_cases(ctx, mod, budget=None):
                     ctx.flags['crashes'].append({'case': desc, 'error': repr(e), 'tb': traceback.format_exc()[-1500:]})
         n += 1
     ctx.case = None
+    # W0: in the thorough tier the repository's own test-suite is run once under the always-on monitors (vf/w0plugin.py)
+    # and this property's monitor is accounted here (shard 0 only)
+    if ctx.tier == 'thorough' and ctx.shard == 0 and getattr(mod, 'W0_COUNTER', None) and not os.environ.get('VERIF_NO_W0'):
+        ctx.case = {'w0': 'repository test-suite under the %s monitor' % ctx.prop}
+        try:
+            from . import w0
+            w0.feed(ctx, ctx.prop, mod.W0_COUNTER)
+        except Exception as e:
+            ctx.observe('w0_run_failed:' + type(e).__name__)
+        ctx.case = None
     if hasattr(mod, 'finish'):
         mod.finish(ctx)
     ctx.flags['ncases_all'] = len(cases)
